@@ -2,6 +2,7 @@ mod fmt;
 mod gen;
 mod ops;
 mod oracle;
+mod pkt;
 mod report;
 mod sio;
 mod tables;
@@ -55,6 +56,9 @@ fn main() {
             let rep = match prop.as_str() {
                 "C15" => oracle::c15(tier, seed, ops),
                 "C19" => oracle::c19(tier, ops),
+                "C16" => oracle::c16(tier, seed, ops),
+                "C17" => oracle::c17(tier, seed, ops),
+                "C18" => oracle::c18(tier, seed, ops),
                 other => {
                     eprintln!("no oracle for {other}");
                     std::process::exit(2);
